@@ -26,6 +26,9 @@ type batchResult struct {
 	mu         sync.Mutex
 	stats      *Stats
 	fps        map[uint64]struct{} // distinct fingerprints of non-trivial runs
+	auxs       map[uint64]struct{} // distinct secondary hashes (interleavings)
+	fpCapped   bool
+	sites      map[int]struct{}    // instrumented statements executed
 	runs       uint64
 	nontrivial uint64
 	violations []RunResult
@@ -35,6 +38,9 @@ type batchResult struct {
 	capped     bool
 	knownHits  map[string]uint64
 }
+
+// distinct fingerprints are tracked exactly up to this many; beyond it the count is a lower bound
+const maxDistinctTracked = 6_000_000
 
 func envSeed() uint64 {
 	if s := os.Getenv("VERIF_SEED"); s != "" {
@@ -76,7 +82,7 @@ func head(s string, n int) string {
 
 // runWorkers executes runs [0,total) striped over nworkers child processes.
 func runWorkers(exe string, sc *scenario, tier string, seed, total uint64, nworkers int, samples uint64, known string, deadline int64) *batchResult {
-	br := &batchResult{stats: newStats(), fps: map[uint64]struct{}{}, knownHits: map[string]uint64{}}
+	br := &batchResult{stats: newStats(), fps: map[uint64]struct{}{}, auxs: map[uint64]struct{}{}, sites: map[int]struct{}{}, knownHits: map[string]uint64{}}
 	var wg sync.WaitGroup
 	for w := 0; w < nworkers; w++ {
 		wg.Add(1)
@@ -144,11 +150,30 @@ func runWorkers(exe string, sc *scenario, tier string, seed, total uint64, nwork
 						case "E":
 							open = -1
 							fp, _ := strconv.ParseUint(sp[2][:16], 16, 64)
+							aux, _ := strconv.ParseUint(sp[2][17:33], 16, 64)
 							br.mu.Lock()
 							br.runs++
 							if strings.HasSuffix(sp[2], " 1") {
 								br.nontrivial++
-								br.fps[fp] = struct{}{}
+								if len(br.fps) < maxDistinctTracked {
+									br.fps[fp] = struct{}{}
+								} else {
+									br.fpCapped = true
+								}
+								if aux != 0 && len(br.auxs) < maxDistinctTracked {
+									br.auxs[aux] = struct{}{}
+								}
+							}
+							br.mu.Unlock()
+						case "C":
+							br.mu.Lock()
+							for _, h := range strings.Split(line[2:], ",") {
+								if h == "" {
+									continue
+								}
+								if v, err := strconv.ParseInt(h, 16, 32); err == nil {
+									br.sites[int(v)] = struct{}{}
+								}
 							}
 							br.mu.Unlock()
 						case "V":
@@ -507,6 +532,11 @@ func writeEvidence(path string, sc *scenario, tier string, seed uint64, br *batc
 		"faults_fired":        faults,
 		"oracle_evaluations":  oracles,
 		"probes":              probes,
+		"distinct_counting_capped": br.fpCapped,
+		"distinct_interleavings":   len(br.auxs),
+		"library_statements_total":   max(len(sitesTable)-1, 0),
+		"library_statements_reached": len(br.sites),
+		"library_statements_reached_by_file": sitesByFile(br.sites),
 		"types_reached":       len(typesReached),
 		"types_reached_detail": typesReached,
 		"other_counters":      other,
@@ -522,4 +552,24 @@ func writeEvidence(path string, sc *scenario, tier string, seed uint64, br *batc
 	if err := os.WriteFile(path, append(b, '\n'), 0o644); err != nil {
 		infraFatal("evidence: %v", err)
 	}
+}
+
+func sitesByFile(hit map[int]struct{}) map[string]string {
+	tot := map[string]int{}
+	got := map[string]int{}
+	for _, s := range sitesTable {
+		if s.Line == 0 {
+			continue
+		}
+		d := filepath.Dir(s.File)
+		tot[d]++
+		if _, ok := hit[s.ID]; ok {
+			got[d]++
+		}
+	}
+	out := map[string]string{}
+	for d, n := range tot {
+		out[d] = fmt.Sprintf("%d/%d", got[d], n)
+	}
+	return out
 }
